@@ -33,19 +33,24 @@ Unit == Ty(0, 1, {})
 \* the base of the recursion as declared in the source
 BaseTy(s, a) == IF BaseIsZeroLenArray THEN Ty(0, a, {}) ELSE Unit
 
-RECURSIVE ReprCFrom(_, _, _, _, _)
-\* fields: sequence of layouts; returns the struct layout
-ReprCFrom(fields, i, end, align, slots) ==
+MinOf(a, b) == IF a < b THEN a ELSE b
+RECURSIVE ReprCFrom(_, _, _, _, _, _)
+\* fields: sequence of layouts; pack: 0, or the k of repr(packed(k)) - every field's alignment is capped at k;
+\* returns the struct layout
+ReprCFrom(fields, i, end, align, slots, pack) ==
     IF i > Len(fields) THEN Ty(AlignUp(end, align), align, slots)
     ELSE LET f == fields[i]
-             off == AlignUp(end, f.align)
-         IN ReprCFrom(fields, i + 1, off + f.size, MaxOf(align, f.align), slots \cup Shift(f.slots, off))
-ReprC(fields) == ReprCFrom(fields, 1, 0, 1, {})
+             fa == IF pack > 0 THEN MinOf(f.align, pack) ELSE f.align
+             off == AlignUp(end, fa)
+         IN ReprCFrom(fields, i + 1, off + f.size, MaxOf(align, fa), slots \cup Shift(f.slots, off), pack)
+\* minalign: 0, or the k of repr(align(k)) - the struct is at least that aligned
+ReprCMod(fields, pack, minalign) == ReprCFrom(fields, 1, 0, MaxOf(1, minalign), {}, pack)
+ReprC(fields) == ReprCMod(fields, 0, 0)
 
 FieldTy(name, u, s, a) == CASE name = "U" -> u [] name = "T" -> ElemTy(s, a) [] name = "PhantomData" -> Phantom
-Node(fieldNames, u, s, a) == ReprC([i \in DOMAIN fieldNames |-> FieldTy(fieldNames[i], u, s, a)])
-Even(u, s, a) == Node(EvenFields, u, s, a)
-Odd(u, s, a) == Node(OddFields, u, s, a)
+Node(fieldNames, u, s, a, pack, minalign) == ReprCMod([i \in DOMAIN fieldNames |-> FieldTy(fieldNames[i], u, s, a)], pack, minalign)
+Even(u, s, a) == Node(EvenFields, u, s, a, EvenPack, EvenAlign)
+Odd(u, s, a) == Node(OddFields, u, s, a, OddPack, OddAlign)
 
 \* what [T; N] is by definition of the language
 Native(n, s, a) == Ty(n * s, a, {i * s : i \in 0..(n - 1)})
@@ -79,4 +84,6 @@ ElemOffOK(r) == r.off = r.i * r.tsize /\ r.i < r.n
 RleOK(rle, val, n) == IF n = 0 THEN rle = <<>> ELSE rle = <<<<val, n>>>>
 CDefOK(r) == RleOK(r.rle, r.defval, r.n) /\ r.eq_default /\ r.const_eq_runtime
 ZeroizeOK(r) == RleOK(r.rle, r.zeroval, r.n)
+\* elements without bytes are owed the call all the same: once each (as the slice does), also through rows of 3
+ZCallsOK(r) == r.calls = r.n /\ r.slice_calls = r.n /\ r.nested_calls = 3 * r.n
 =============================================================================
